@@ -39,6 +39,7 @@ class Run:
         self.warnings = []
         self.keep = keep_objects
         _patch_budget(self.rec, send_budget)
+        self.rec.poke = self._poke
 
     # ------------------------------------------------------------------
     def execute(self):
@@ -104,7 +105,9 @@ class Run:
 
     # ------------------------------------------------------------------ steps (sync driver)
     def _one_step_sync(self, step):
-        gen = self._step(step)
+        self._one_step_gen(self._step(step))
+
+    def _one_step_gen(self, gen):
         try:
             pending = next(gen)
             while True:
@@ -224,7 +227,8 @@ class Run:
         spec = self.spec
         reuse = bool(step.get("reuse_model")) and self.mod is not None
         if step.get("reuse_class") and self.mod is not None:
-            self.objs = render.provider_objects(spec, self.mod)
+            if not step.get("keep_objs"):
+                self.objs = render.provider_objects(spec, self.mod)
         elif not reuse:
             try:
                 self.source = step.get("source") or render.render(spec)
@@ -350,6 +354,7 @@ class Run:
         style = step.get("style", "send")
         if style == "method" and not hasattr(type(self.sm), step["event"]):
             style = "send"
+        self._push_attr_guards()
         rec.emit("step", op="send", phase="begin", val=dict(rec.val))
         rec.emit("send_call", tok=tok, event=step["event"], style=style, args=args, ukw=ukw)
         try:
@@ -403,53 +408,158 @@ class Run:
             info["model_is_users"] = sm.model is self.user_model
         rec.emit("step", op="probe", phase="end", **info)
 
+    def _swap_to_other(self):
+        saved = (self.sm, self.objs, getattr(self, "user_model", None), self.rec.log, getattr(self, "bound_target", None))
+        self._in_other = True
+        self.sm, self.objs, self.user_model = self.other, self.other_objs, self.other_objs.get("model")
+        self.rec.log = self.other_log
+        self.bound_target = None
+        return saved
+
+    def _swap_back(self, saved):
+        self.other = self.sm
+        self._in_other = False
+        self.sm, self.objs, self.user_model, self.rec.log, self.bound_target = saved
+
     def op_other(self, step):
-        """Interference: activity on ANOTHER instance (same class, own model/listeners) recorded in a
-        separate log and validated here; the main history must be unaffected."""
+        """Interference: activity on ANOTHER instance (same class, own model/listeners) or definitions
+        of other classes. The other instance's history goes to a separate log (checked against the
+        reference on its own); the main history must be unaffected."""
         rec = self.rec
         if self.sm is None:
             return
-        main, rec.log = rec.log, []
-        main_val = dict(rec.val)
         act = step["action"]
-        try:
-            if act == "construct":
-                objs = render.provider_objects(self.spec, self.mod)
-                cls = type(self.sm)
-                lst = [objs[p] for p in step.get("listeners", []) if p in objs]
-                if step.get("share"):
-                    lst.append(self.objs[step["share"]])
-                self.other_objs = objs
-                self.other = cls(objs["model"], listeners=lst, allow_event_without_transition=True)
-            elif getattr(self, "other", None) is not None:
-                if act == "send":
-                    res = self.other.send(step["event"], _tok="other")
-                    if inspect.isawaitable(res):
-                        res = yield res
-                elif act == "add_listener":
-                    self.other.add_listener(self.other_objs[step["provider"]])
-        except Exception as err:  # noqa: BLE001
-            pass
-        finally:
-            noise, rec.log = rec.log, main
-            rec.val = main_val
-        other = getattr(self, "other", None)
-        if other is not None:
-            mine = {id(o): p for p, o in self.objs.items() if o is not None and p != step.get("shared_with_main")}
-            shared = id(self.objs[self.shared_provider]) if getattr(self, "shared_provider", None) else None
+        if not hasattr(self, "other_log"):
+            self.other_log, self.other, self.other_objs = [], None, {}
+        main_val = dict(rec.val)
+        n0 = len(self.other_log)
+        if act in ("define_same_name", "subclass", "invalid_def"):
+            try:
+                self._other_define(step)
+                rec.emit("note", what="other-definition", action=act)
+            except Exception as err:  # noqa: BLE001
+                rec.emit("note", what="other-definition", action=act, exc=f"{type(err).__name__}: {err}"[:200])
+            return
+        if act == "construct":
+            self.other_objs = render.provider_objects(self.spec, self.mod)
             if step.get("share"):
+                self.other_objs[step["share"]] = self.objs[step["share"]]
                 self.shared_provider = step["share"]
-                shared = id(self.objs[step["share"]])
-            for e in noise:
-                if e["k"] != "cb_begin":
-                    continue
-                if e.get("mid") == id(self.sm):
-                    rec.emit("note", what="instance-isolation", detail=f"callback {e['cb']} of the main instance ran during activity on another instance")
-                elif e.get("sid") in mine and e.get("sid") != shared and e.get("sid") != id(self.sm):
-                    rec.emit("note", what="instance-isolation", detail=f"{mine[e['sid']]} of the main instance was invoked by another instance ({e['cb']})")
-            rec.emit("note", what="other-activity", action=act, callbacks=sum(1 for e in noise if e["k"] == "cb_begin"))
+            self.other = self.sm      # placeholder so that swap works
+            saved = self._swap_to_other()
+            try:
+                st2 = {"op": "construct", "reuse_class": True, "val": main_val, "keep_objs": True,
+                       "listeners": [p for p in step.get("listeners", []) if p in self.objs]}
+                if step.get("share") and step["share"] not in st2["listeners"]:
+                    st2["listeners"].append(step["share"])
+                yield from self._construct(st2)
+            finally:
+                self._swap_back(saved)
+        elif self.other is not None:
+            saved = self._swap_to_other()
+            try:
+                if act == "send":
+                    yield from self._send({"op": "send", "event": step["event"], "style": "send"})
+                elif act == "add_listener":
+                    self.sm.add_listener(self.objs[step["provider"]])
+            finally:
+                self._swap_back(saved)
+        rec.val = main_val
+        self._check_isolation(n0, act)
         return
         yield  # pragma: no cover
+
+    def _check_isolation(self, n0, act):
+        rec = self.rec
+        noise = self.other_log[n0:]
+        mine = {id(o): p for p, o in self.objs.items() if o is not None}
+        shared = id(self.objs[self.shared_provider]) if getattr(self, "shared_provider", None) else None
+        for e in noise:
+            if e["k"] != "cb_begin":
+                continue
+            if e.get("mid") == id(self.sm):
+                rec.emit("note", what="instance-isolation", detail=f"callback {e['cb']} of the main instance ran during activity on another instance")
+            elif e.get("sid") in mine and e.get("sid") != shared and e.get("sid") != id(self.sm):
+                rec.emit("note", what="instance-isolation", detail=f"{mine[e['sid']]} of the main instance was invoked by another instance ({e['cb']})")
+        rec.emit("note", what="other-activity", action=act, callbacks=sum(1 for e in noise if e["k"] == "cb_begin"))
+
+    def _poke(self, cb_id, event):
+        """Called from inside a callback of the main (sync) instance: send an event to the other,
+        idle instance. It is an outermost call for that machine and must be processed at once."""
+        if getattr(self, "other", None) is None or self.spec.get("any_async") or getattr(self, "_in_other", False):
+            return None
+        rec = self.rec
+        n0 = len(self.other_log)
+        saved = self._swap_to_other()
+        try:
+            self._one_step_gen(self._send({"op": "send", "event": event, "style": "send"}))
+        finally:
+            self._swap_back(saved)
+        self._check_isolation(n0, "poke")
+        return None
+
+    def _other_define(self, step):
+        """Definitions of OTHER classes while the main instance lives: an unrelated class with the same
+        class and method names but other signatures / async bodies, a subclass adding transitions on
+        inherited states, a definition that fails validation."""
+        import re
+        import sys
+        import types
+
+        from statemachine import State, StateMachine
+        from statemachine.exceptions import InvalidDefinition
+
+        act = step["action"]
+        uid = self.spec["uid"]
+        noise = []
+        ns = {"State": State, "StateMachine": StateMachine, "NOISE": lambda *a, **k: noise.append(1)}
+        if act == "define_same_name":
+            src = self.source
+            # machine class only (drop provider classes), same names, other signatures / async flipped
+            start = src.index(f"class M_{uid}(")
+            body = src[start:]
+            variant = step.get("variant", 0)
+            if variant == 0:
+                body = re.sub(r"def (\w+)\(self, \*args, \*\*kwargs\):", r"def \1(self, args=None, *, kwargs=None):", body)
+            elif variant == 1:
+                body = re.sub(r"(?<!async )def (\w+)\(self, \*args, \*\*kwargs\):", r"async def \1(self, *args, **kwargs):", body)
+            else:
+                body = re.sub(r"def (\w+)\(self, \*args, \*\*kwargs\):", r"def \1(self, kwargs=None, *args):", body)
+            body = re.sub(r"return (await )?REC\.(a?run|a?guard|validator)\((.*)\)", r"return NOISE(1)", body)
+            body = body.replace("return REC.guard(", "return True or (").replace("lambda *args, **kwargs: REC.run(", "lambda *args, **kwargs: NOISE(")
+            modname = f"vmon_dyn_{uid}_x{len(getattr(self, 'extra_mods', []))}"
+            mod = types.ModuleType(modname)
+            mod.__dict__.update(ns)
+            self.extra_mods = getattr(self, "extra_mods", []) + [modname]
+            sys.modules[modname] = mod
+            exec(compile(body, f"<{modname}>", "exec"), mod.__dict__)
+            provs = render.provider_objects(self.spec, self.mod)
+            keep_log, self.rec.log = self.rec.log, []
+            try:
+                other = getattr(mod, f"M_{uid}")(provs["model"], allow_event_without_transition=True,
+                                                  listeners=[provs[p] for p in self.spec["providers"] if p not in ("sm", "model")])
+                for ev in step.get("events", []):
+                    res = other.send(ev)
+                    if inspect.isawaitable(res):
+                        res.close()
+            finally:
+                self.rec.log = keep_log
+        elif act == "subclass":
+            cls = type(self.sm)
+            st = [s for s in self.spec["states"] if not s["final"]]
+            a, b = st[0]["id"], st[-1]["id"]
+            src = (f"class Sub_{uid}(Base):\n    extra_state = State()\n"
+                   f"    extra_event = Base.{a}.to(extra_state) | extra_state.to(Base.{b})\n")
+            ns["Base"] = cls
+            import warnings as _w
+            with _w.catch_warnings():
+                _w.simplefilter("ignore")
+                exec(compile(src, "<subclass>", "exec"), ns)
+        else:
+            try:
+                exec(compile("class Broken(StateMachine):\n    a = State()\n    b = State()\n    go = a.to(b)\n", "<invalid>", "exec"), ns)
+            except InvalidDefinition:
+                pass
 
     def op_write(self, step):
         """External writes: directly on the model, or through the low-level setters."""
